@@ -149,4 +149,95 @@ theorem anyOverlap_cons_mono (p : Path) (alts fs : List Path) (h : anyOverlap [p
     · exact Or.inl (Or.inl h)
     · exact Or.inr (Or.inl h)
 
+/-! ### names spelled with a trailing separator
+
+`getLogicalFileNames` keeps the RAW spelling of an output next to the cleaned
+one.  A raw spelling with a trailing separator (`…/outdir/`) is inert next to
+its cleaned form: whatever walked path matches it matches the cleaned form. -/
+
+/-- no doubled separator inside the path (what a walk of a directory yields) -/
+def NoDbl (p : Path) : Prop := ¬ ['/', '/'] <:+: p
+
+/-- the shape of the names an argument refers to: clean at the end, or a clean
+member of the list with one separator appended -/
+def FilesWF (fs : List Path) : Prop :=
+  ∀ f ∈ fs, NoTrailingSlash f ∨ ∃ g ∈ fs, NoTrailingSlash g ∧ f = g ++ ['/']
+
+theorem anyOverlap_single (n : Path) (fs : List Path) :
+    anyOverlap [n] fs = true ↔ ∃ f ∈ fs, n = f ∨ overlapDir n f = true := by
+  unfold anyOverlap
+  cases fs with
+  | nil => simp
+  | cons x r =>
+    simp only [List.isEmpty_cons, Bool.or_self, Bool.false_eq_true, if_false, List.any_cons, List.any_nil,
+      Bool.or_false]
+    constructor
+    · intro h
+      split at h
+      · rename_i hc
+        have : n ∈ x :: r := by simpa using hc
+        exact ⟨n, this, Or.inl rfl⟩
+      · rw [Bool.or_eq_true] at h
+        rcases h with h | h
+        · exact ⟨x, List.mem_cons_self, Or.inr h⟩
+        · rw [List.any_eq_true] at h
+          obtain ⟨f, hf, hm⟩ := h
+          exact ⟨f, List.mem_cons_of_mem _ hf, Or.inr hm⟩
+    · rintro ⟨f, hf, h | h⟩
+      · subst h
+        have hc : (x :: r).contains n = true := by simpa using hf
+        rw [if_pos hc]
+      · split
+        · rfl
+        · rcases List.mem_cons.mp hf with rfl | hf
+          · simp [h]
+          · rw [Bool.or_eq_true]
+            right
+            rw [List.any_eq_true]
+            exact ⟨f, hf, h⟩
+
+/-- a walked path that matches a name with a trailing separator matches the name without it -/
+theorem match_trailing {n g : Path} (hn : NoTrailingSlash n) (hd : NoDbl n) (hg : NoTrailingSlash g)
+    (h : n = g ++ ['/'] ∨ overlapDir n (g ++ ['/']) = true) : Related n g := by
+  rcases h with h | h
+  · exact absurd h (hn g)
+  · unfold overlapDir at h
+    split at h
+    · exfalso
+      obtain ⟨t, ht⟩ := List.isPrefixOf_iff_prefix.mp h
+      apply hd
+      exact ⟨g, t, by rw [← ht]; simp⟩
+    · split at h
+      · rename_i hlen
+        obtain ⟨t, ht⟩ := List.isPrefixOf_iff_prefix.mp h
+        -- n ++ "/" ++ t = g ++ "/" and |n| + 1 < |g| + 1, so t is not empty and ends with "/"
+        right; right
+        have hl : (n ++ ['/'] ++ t).length = (g ++ ['/']).length := by rw [ht]
+        simp at hl hlen
+        have htne : t ≠ [] := by
+          intro h0; subst h0; simp at hl; omega
+        obtain ⟨t', c, rfl⟩ : ∃ t' c, t = t' ++ [c] :=
+          ⟨t.dropLast, t.getLast htne, (List.dropLast_concat_getLast htne).symm⟩
+        have e : n ++ ['/'] ++ t' ++ [c] = g ++ ['/'] := by rw [← ht]; simp
+        have := List.append_inj' e (by simp)
+        exact ⟨t', this.1⟩
+      · simp at h
+
+theorem refsWF_iff {n : Path} {fs : List Path} (hn : NoTrailingSlash n) (hd : NoDbl n) (wf : FilesWF fs) :
+    anyOverlap [n] fs = true ↔ ∃ f ∈ fs, NoTrailingSlash f ∧ Related n f := by
+  rw [anyOverlap_single]
+  constructor
+  · rintro ⟨f, hf, hm⟩
+    rcases wf f hf with hc | ⟨g, hg, hgc, rfl⟩
+    · refine ⟨f, hf, hc, ?_⟩
+      rcases hm with rfl | hm
+      · exact Or.inl rfl
+      · exact Or.inr ((overlapDir_iff n f hn hc).mp hm)
+    · exact ⟨g, hg, hgc, match_trailing hn hd hgc hm⟩
+  · rintro ⟨f, hf, hc, hr⟩
+    refine ⟨f, hf, ?_⟩
+    rcases hr with h | h
+    · exact Or.inl h
+    · exact Or.inr ((overlapDir_iff n f hn hc).mpr h)
+
 end Martian.Vdr
